@@ -85,7 +85,8 @@ INIT Init
 NEXT Next
 VIEW View
 CONSTRAINT Bound
-{inv if mode == "mc" else "ACTION_CONSTRAINT Emit"}
+{inv if mode in ("mc", "both") else ""}
+{"ACTION_CONSTRAINT Emit" if mode in ("emit", "both") else ""}
 CHECK_DEADLOCK FALSE
 """
 
@@ -503,12 +504,11 @@ def run(focus, tier, seed):
         tabs = p["tables"]
         const = {k: v for k, v in p.items() if k != "tables"}
         const["tables"] = len(tabs)
-        chunk = max(1, (len(tabs) + 3) // 4) if tier == "thorough" and len(tabs) > 12 else len(tabs)
+        chunk = max(1, (len(tabs) + 3) // 4) if tier == "thorough" and len(tabs) > 12 else max(1, (len(tabs) + 2) // 3)
         for i in range(0, len(tabs), chunk):
             mod = mc_module(p, tabs[i:i + chunk])
-            jobs.append(dict(module=mod, cfg=cfg(p, "mc"), workers=1, timeout=3000, tag=("mc", const)))
             pp = {k: v for k, v in p.items() if k != "tables"}
-            jobs.append(dict(module=mod, cfg=cfg(p, "emit"), workers=1, timeout=3000, params=pp, tag=("emit", const)))
+            jobs.append(dict(module=mod, cfg=cfg(p, "both"), workers=1, timeout=3000, params=pp, tag=("mc", const)))
     t, rs = s2c.run_s2c(MOD, focus, jobs, tlc_parallel=10)
     total.merge(t)
     agg = {}
@@ -516,10 +516,8 @@ def run(focus, tier, seed):
                "CounterMeaning": "C14", "RemoveUndoesAdd": "C08", "SaturatedStays": "C16", "TypeOK": "C16"}
     for job, r in zip(jobs, rs):
         kind, const = job["tag"]
-        if kind != "mc":
-            total.extra["emitted"] = total.extra.get("emitted", 0) + r.emitted
-            continue
-        a = agg.setdefault(repr(const), {"spec": "BloomFamily", "constants": const, "mode": "exhaustive", "generated": 0, "distinct": 0, "depth": 0, "wall_s": 0, "ok": True})
+        total.extra["emitted"] = total.extra.get("emitted", 0) + r.emitted
+        a = agg.setdefault(repr(const), {"spec": "BloomFamily", "constants": const, "mode": "exhaustive+emit", "generated": 0, "distinct": 0, "depth": 0, "wall_s": 0, "ok": True})
         a["generated"] += r.generated
         a["distinct"] += r.distinct
         a["depth"] = max(a["depth"], r.depth)
